@@ -9,6 +9,7 @@
 #include <etl/_cwchar/wint_t.hpp>
 #include <etl/_ios/typedefs.hpp>
 #include <etl/_strings/cstr.hpp>
+#include <etl/_type_traits/is_same.hpp>
 
 namespace etl {
 
@@ -25,7 +26,15 @@ struct char_traits_base {
 
     static constexpr auto eq(char_type a, char_type b) noexcept -> bool { return a == b; }
 
-    static constexpr auto lt(char_type a, char_type b) noexcept -> bool { return a < b; }
+    /// \brief char is ordered like unsigned char, as in std::char_traits<char>.
+    static constexpr auto lt(char_type a, char_type b) noexcept -> bool
+    {
+        if constexpr (is_same_v<char_type, char>) {
+            return static_cast<unsigned char>(a) < static_cast<unsigned char>(b);
+        } else {
+            return a < b;
+        }
+    }
 
     static constexpr auto compare(char_type const* lhs, char_type const* rhs, size_t count) -> int
     {
@@ -34,10 +43,10 @@ struct char_traits_base {
         }
 
         for (size_t i = 0; i < count; ++i) {
-            if (lhs[i] < rhs[i]) {
+            if (lt(lhs[i], rhs[i])) {
                 return -1;
             }
-            if (lhs[i] > rhs[i]) {
+            if (lt(rhs[i], lhs[i])) {
                 return 1;
             }
         }
@@ -84,7 +93,14 @@ struct char_traits_base {
 
     static constexpr auto to_char_type(int_type c) noexcept -> char_type { return static_cast<char_type>(c); }
 
-    static constexpr auto to_int_type(char_type c) noexcept -> int_type { return static_cast<int_type>(c); }
+    static constexpr auto to_int_type(char_type c) noexcept -> int_type
+    {
+        if constexpr (is_same_v<char_type, char>) {
+            return static_cast<int_type>(static_cast<unsigned char>(c));
+        } else {
+            return static_cast<int_type>(c);
+        }
+    }
 
     static constexpr auto eq_int_type(int_type lhs, int_type rhs) noexcept -> bool
     {
